@@ -11,6 +11,7 @@ struct Pair {
 typedef struct Pair Pair;
 void charOut(char *dest, const char *src);
 const char *charRet(int n);
+const char *charRetLen(int n);
 void charInout(char *s);
 void charGrow(char *s);
 int charArrLen(char **names, int n);
